@@ -180,6 +180,7 @@ def one_rotation(ck, codes, seeds, wcs, rot, W, first_vec, out):
     for i, v in enumerate(vs):
         v["W"], v["rot"], v["vec"] = W, rot, first_vec + i
     out.setdefault("gen_states", res.distinct)
+    out.setdefault("rerun_for_timing", 0)
     runs = replay_vectors(ck, vs, "vectors_rot%d" % rot, 768)
     nsh = 8 if ck.thorough else 5
     shards = [runs[i::nsh] for i in range(nsh)]
